@@ -22,7 +22,9 @@
 #include "c17.hpp"
 #include <ImathFun.h>
 #include <ImathMath.h>
+#include <algorithm>
 #include <climits>
+#include <cstdint>
 #include <limits>
 
 using namespace vf;
@@ -472,6 +474,84 @@ void mixed_stage ()
     R ().stage_done ("12 x 12 dyadic operands x 7 tolerances: equal<float,double,float>, <double,float,double>, <float,float,double>, <int,float,float>, <double,int,float>, <int,int,double>; 12 x 12 x 7 exact cases of lerp/ulerp<float,double> and <double,float>");
 }
 
+// ---- equalWithAbsError / equalWithRelError for EVERY integer element type ---------------------------------
+// The functions are templates over the element type of the vector / colour classes (Vec<short>, Color<unsigned char>,
+// Vec<int64_t> ...), so "follow their definitions" is a statement about every integer T, not only int. The documented
+// definitions (ImathMath.h) are
+//        equalWithAbsError (x1, x2, e)  <=>  abs (x1 - x2) <= e
+//        equalWithRelError (x1, x2, e)  <=>  abs (x1 - x2) <= e * x1        (the other stages of this file read the
+//                                                                             right-hand side as e * |x1|, as here)
+// over the integers: |x1 - x2| is the DISTANCE of the two values. For an unsigned T the distance of x1 < x2 is
+// x2 - x1 (not the wrapped x1 - x2), and for a type narrower than int the distance may exceed max(T) (short: up to
+// 65535) and is still a perfectly well defined integer. The oracle evaluates both sides in __int128 - exact for every
+// operand of every type up to 64 bits. What is judged, and nothing more: let P be the type C++ arithmetic on T is
+// carried out in (int for the types narrower than int, otherwise T itself). A case is inside the domain iff every
+// quantity of the definition is representable in P: the distance |x1 - x2| <= max(P); for the relative form also
+// |x1| <= max(P) and min(P) <= e * |x1| <= max(P) (for unsigned P a product beyond max(P) would wrap silently; the
+// definition says nothing about that, so it is excluded, not judged). Operand tuples outside the domain are counted
+// (..._outside_domain) and not called for signed P (the evaluation would be undefined behaviour).
+// Alphabet: {min, min+1, min/2, -3..3, 7, 100, max/2, max/2+1, max-1, max} of T (non-negative part for unsigned T),
+// all triples (x1, x2, e).
+typedef __int128 I128;
+inline std::string s128 (I128 v)
+{
+    if (v == 0) return "0";
+    bool neg = v < 0;
+    unsigned __int128 u = neg ? (unsigned __int128) (-(v + 1)) + 1 : (unsigned __int128) v;
+    std::string s;
+    while (u) { s.insert (s.begin (), char ('0' + (int) (u % 10))); u /= 10; }
+    return neg ? "-" + s : s;
+}
+
+template <class T> void int_equal_stage (const std::string& tn)
+{
+    if (!R ().stage ("equalWithError-" + tn)) return;
+    typedef decltype (T () + T ()) P; // the promoted type the library's expression is evaluated in
+    typedef std::numeric_limits<T> L;
+    typedef std::numeric_limits<P> LP;
+    const I128 TMIN = (I128) L::min (), TMAX = (I128) L::max (), PMIN = (I128) LP::min (), PMAX = (I128) LP::max ();
+    std::vector<I128> B0 = {TMIN, TMIN + 1, TMIN / 2, -3, -2, -1, 0, 1, 2, 3, 7, 100, TMAX / 2, TMAX / 2 + 1, TMAX - 1, TMAX};
+    std::vector<I128> B;
+    for (I128 v : B0) if (v >= TMIN && v <= TMAX && std::find (B.begin (), B.end (), v) == B.end ()) B.push_back (v);
+    const bool narrow = sizeof (T) < sizeof (P);
+    long long n = 0, tr = 0, c_lt = 0, c_far = 0, c_in = 0, c_out = 0, c_rin = 0, c_rout = 0, c_nege = 0, x_abs = 0, x_rel = 0;
+    for (I128 a : B)
+        for (I128 b : B)
+            for (I128 e : B)
+            {
+                ++n;
+                volatile T x1v = (T) a, x2v = (T) b, ev = (T) e;
+                const T    x1 = x1v, x2 = x2v, ee = ev;
+                const I128 dist = a > b ? a - b : b - a, absa = a < 0 ? -a : a, abse = e < 0 ? -e : e;
+                const bool prod_big = absa != 0 && abse > (PMAX + 1) / absa + 1; // |e*|x1|| certainly beyond P (keeps the __int128 product exact: otherwise < 2^66)
+                const I128 rhs = prod_big ? 0 : e * absa;
+                std::string in = tn + " " + s128 (a) + " " + s128 (b) + " " + s128 (e);
+                if (dist > PMAX) { ++x_abs; ++x_rel; continue; } // |x1 - x2| not representable in P
+                const bool w = dist <= e;
+                const bool g = IM::equalWithAbsError (x1, x2, ee);
+                ++tr;
+                if (g != w) R ().fail ("equalWithAbsError<" + tn + ">", in, std::string (w ? "true" : "false") + " (|x1-x2| = " + s128 (dist) + ")", fmt (g));
+                if (a < b) ++c_lt;
+                if (dist > TMAX) ++c_far;
+                if (e < 0) ++c_nege;
+                if (w) ++c_in; else ++c_out;
+                if (absa > PMAX || prod_big || rhs > PMAX || rhs < PMIN) { ++x_rel; continue; }
+                const bool w3 = dist <= rhs;
+                const bool g3 = IM::equalWithRelError (x1, x2, ee);
+                ++tr;
+                if (g3 != w3) R ().fail ("equalWithRelError<" + tn + ">", in, std::string (w3 ? "true" : "false") + " (|x1-x2| = " + s128 (dist) + ", e*|x1| = " + s128 (rhs) + ")", fmt (g3));
+                if (w3) ++c_rin; else ++c_rout;
+            }
+    R ().cls ("equalWithError." + tn + ".x1<x2", c_lt);
+    if (narrow && L::is_signed) R ().cls ("equalWithError." + tn + ".distance-above-max(T)", c_far);
+    if (L::is_signed) R ().cls ("equalWithError." + tn + ".negative-tolerance", c_nege);
+    R ().cls ("equalWithError." + tn + ".abs.within", c_in); R ().cls ("equalWithError." + tn + ".abs.outside", c_out);
+    R ().cls ("equalWithError." + tn + ".rel.within", c_rin); R ().cls ("equalWithError." + tn + ".rel.outside", c_rout);
+    R ().add ("equalWithError." + tn + ".abs.distance_outside_domain", x_abs); R ().add ("equalWithError." + tn + ".rel.product_or_distance_outside_domain", x_rel);
+    R ().add ("states", n); R ().add ("evaluations", n); R ().add ("transitions", tr);
+    R ().stage_done ("B(" + tn + ")^3 (" + std::to_string (B.size ()) + " values: min, min+1, min/2, -3..3, 7, 100, max/2, max/2+1, max-1, max) x {equalWithAbsError, equalWithRelError} vs the definitions in __int128");
+}
+
 } // namespace
 
 void c17_scalar_stages ()
@@ -480,4 +560,12 @@ void c17_scalar_stages ()
     fp_stage<double> ("double");
     int_stage ();
     mixed_stage ();
+    int_equal_stage<unsigned char> ("unsigned char");
+    int_equal_stage<signed char> ("signed char");
+    int_equal_stage<short> ("short");
+    int_equal_stage<unsigned short> ("unsigned short");
+    int_equal_stage<int> ("int");
+    int_equal_stage<unsigned int> ("unsigned int");
+    int_equal_stage<int64_t> ("int64_t");
+    int_equal_stage<uint64_t> ("uint64_t");
 }
